@@ -228,3 +228,61 @@ Theorem existence_cache_never_panics : forall size dur ops, (1 <= size)%nat ->
   lpanic (elru (cache (snd (erun size dur ops (mkest ec_empty 0%N []))))) = false.
 Proof. exact ec_no_panic. Qed.
 Print Assumptions existence_cache_never_panics.
+
+(** ** The monitor used on implementation traces never fires on the model.
+
+    [mon17 inp obs] (Run/R17Proofs.v: the dispatch of [judge17] on the case
+    kind, applied to the monitors [mon_seq], [mon_ec], [mon_conc], [mon_lru]
+    of Run/R17.v, Run/R17Conc.v) is the property as a decidable check on what
+    the implementation was observed to do; [run17 inp] is the model's output
+    ([run_seq], [run_ec], [run_lru]); [agree17 inp obs] is the agreement bit of
+    [judge17].
+
+    SEQUENTIAL case kinds (0: read-caching / read-fallback composites, 1:
+    existence cache, 3: LRU set): for EVERY input - no well-formedness
+    hypothesis at all: decoders clamp, the monitors compare decoded values with
+    values the model encoded itself, an existence cache of size 0 panics in the
+    model at its first recording and the monitors do not judge panics - all
+    clauses (1-7, 11-13, 14) are silent on the model's output, which is the
+    only observation the judge accepts for these kinds.
+    For kind 2, [run17] is the placeholder [L []] (there is no single model
+    output); the statements about kind 2 follow below. *)
+From BBS Require Import Run.R17Conc Run.R17 Run.R17Proofs.
+
+Theorem monitor_silent_on_model : forall inp, mon17 inp (run17 inp) = [].
+Proof. exact mon17_silent_on_model. Qed.
+Print Assumptions monitor_silent_on_model.
+
+Theorem monitor_silent_on_agreeing_observation_sequential : forall inp obs,
+  sx_Z (sx_nth inp 0) <> 2 -> agree17 inp obs = true -> mon17 inp obs = [].
+Proof. exact mon17_silent_on_agreeing_sequential. Qed.
+Print Assumptions monitor_silent_on_agreeing_observation_sequential.
+
+Theorem model_output_is_accepted : forall inp,
+  sx_Z (sx_nth inp 0) = 0 \/ sx_Z (sx_nth inp 0) = 1 \/ sx_Z (sx_nth inp 0) = 3 ->
+  agree17 inp (run17 inp) = true.
+Proof. exact model_output_agrees. Qed.
+Print Assumptions model_output_is_accepted.
+
+(** Non-vacuity: a read-fallback history over a deduplicating local
+    replicator (a read-through, a read with an injected sink failure, an
+    upload, a FindMissing, a NOT_FOUND); an existence-cache history of size 1
+    and duration 5 (hit, expiry, failing backend, direct calls); an LRU
+    history. *)
+Example monitor_silent_examples :
+  (let inp := L [A 0; A 1; L [A 2; A 0]; L [A 0]; L [A 1; A 2];
+                 L [L [A 0; A 1; L []]; L [A 0; A 2; L [A 0; A 0; A 14]]; L [A 1; A 3; L []];
+                    L [A 2; L [A 0; A 3; A 4; A 2]; L []]; L [A 0; A 4; L []]]] in
+   map (fun o => sx_Z (sx_nth o 0)) (sx_list (run17 inp)) = [0; 14; 0; 0; 5]
+   /\ sx_nth (sx_nth (run17 inp) 3) 1 = L [A 4]
+   /\ agree17 inp (run17 inp) = true /\ mon17 inp (run17 inp) = [])
+  /\ (let inp := L [A 1; A 1; A 5;
+                L [L [A 3; A 0]; L [A 3; A 1]; L [A 0; L [A 0]; A 0; A 0; A 0]; L [A 4; A 0];
+                   L [A 0; L [A 0]; A 5; A 0; A 0]; L [A 0; L [A 0]; A 1; A 0; A 0];
+                   L [A 0; L [A 0; A 1]; A 0; A 0; A 14]; L [A 1; L [A 0; A 1]; A 0]; L [A 2; L [A 1]; A 0]]] in
+      map (fun o => sx_nth o 2) (sx_list (run17 inp)) =
+        [L []; L []; L [L [A 0]]; L []; L [L []]; L [L [A 0]]; L [L [A 0; A 1]]; L []; L []]
+      /\ agree17 inp (run17 inp) = true /\ mon17 inp (run17 inp) = [])
+  /\ (let inp := L [A 3; L [L [A 0; A 5]; L [A 0; A 7]; L [A 2]; L [A 1; A 5]; L [A 2]; L [A 3]; L [A 2]]] in
+      run17 inp = L [L [A 5; A 7; A 5]] /\ agree17 inp (run17 inp) = true /\ mon17 inp (run17 inp) = []).
+Proof. exact (conj seq_example (conj ec_example lru_example)). Qed.
